@@ -200,9 +200,19 @@ func (i *Iterator) Next(ctx context.Context, span telem.TimeSpan) (ok bool) {
 		return
 	}
 
-	for i.internal.Next() &&
-		i.accumulate(ctx) &&
-		!i.satisfied() {
+	for i.internal.Next() {
+		if !i.accumulate(ctx) {
+			if i.err == nil {
+				// The domain lies entirely after the view. Step back so that the next
+				// call resumes from the last domain that overlaps this view, which
+				// may still hold samples after view.End.
+				i.internal.Prev()
+			}
+			break
+		}
+		if i.satisfied() {
+			break
+		}
 	}
 	return
 }
@@ -364,9 +374,19 @@ func (i *Iterator) Prev(ctx context.Context, span telem.TimeSpan) (ok bool) {
 		return
 	}
 
-	for i.internal.Prev() &&
-		i.accumulate(ctx) &&
-		!i.satisfied() {
+	for i.internal.Prev() {
+		if !i.accumulate(ctx) {
+			if i.err == nil {
+				// The domain lies entirely before the view. Step forward so that the
+				// next call resumes from the first domain that overlaps this view,
+				// which may still hold samples before view.Start.
+				i.internal.Next()
+			}
+			break
+		}
+		if i.satisfied() {
+			break
+		}
 	}
 	return
 }
